@@ -10,7 +10,8 @@ package configf
 
 //@ func (*ConfigInfo).ResetDefault
 //@   requires st != nil
-//@   modifies *st
+//@   modifies st.BAppOnly
+//@   ensures [C04] st.BAppOnly == false
 //@   safety [C05]
 //
 //@ func (*ConfigInfo).ReadFrom
@@ -21,6 +22,36 @@ package configf
 //@   allocates
 //@   ensures [C05] readBuf.buf.i >= p0
 //@   ensures [C05] validR(readBuf)
+//@   let src = readBuf.buf.src
+//@   let d0 = readBuf.depth
+//@   let q0 = readBuf.buf.i
+//@   let k1 = decStrK(src, q0, 0, true, d0)
+//@   let q1 = (k1 == 0 ? decStrP(src, q0, 0, d0) : seekP(src, q0, 0, d0))
+//@   let ok1 = (k1 == 0 || (k1 == 1 && (seekK(src, q0, 0, d0) == 2 || (seekK(src, q0, 0, d0) == 1 && seekCanon(src, q0, 0, d0)))))
+//@   let k2 = decStrK(src, q1, 1, true, d0)
+//@   let q2 = (k2 == 0 ? decStrP(src, q1, 1, d0) : seekP(src, q1, 1, d0))
+//@   let ok2 = ok1 && (k2 == 0 || (k2 == 1 && (seekK(src, q1, 1, d0) == 2 || (seekK(src, q1, 1, d0) == 1 && seekCanon(src, q1, 1, d0)))))
+//@   let k3 = decStrK(src, q2, 2, true, d0)
+//@   let q3 = (k3 == 0 ? decStrP(src, q2, 2, d0) : seekP(src, q2, 2, d0))
+//@   let ok3 = ok2 && (k3 == 0 || (k3 == 1 && (seekK(src, q2, 2, d0) == 2 || (seekK(src, q2, 2, d0) == 1 && seekCanon(src, q2, 2, d0)))))
+//@   let k4 = decIntK(src, q3, 3, true, 1, d0)
+//@   let q4 = (k4 == 0 ? decIntP(src, q3, 3, d0) : seekP(src, q3, 3, d0))
+//@   let ok4 = ok3 && (k4 == 0 || (k4 == 1 && (seekK(src, q3, 3, d0) == 2 || (seekK(src, q3, 3, d0) == 1 && seekCanon(src, q3, 3, d0)))))
+//@   let k5 = decStrK(src, q4, 4, false, d0)
+//@   let q5 = (k5 == 0 ? decStrP(src, q4, 4, d0) : seekP(src, q4, 4, d0))
+//@   let ok5 = ok4 && (k5 == 0 || (k5 == 1 && (seekK(src, q4, 4, d0) == 2 || (seekK(src, q4, 4, d0) == 1 && seekCanon(src, q4, 4, d0)))))
+//@   let k6 = decStrK(src, q5, 5, false, d0)
+//@   let q6 = (k6 == 0 ? decStrP(src, q5, 5, d0) : seekP(src, q5, 5, d0))
+//@   let ok6 = ok5 && (k6 == 0 || (k6 == 1 && (seekK(src, q5, 5, d0) == 2 || (seekK(src, q5, 5, d0) == 1 && seekCanon(src, q5, 5, d0)))))
+//@   opaque [C04] *
+//@   perreturn
+//@   ensures [C04] (ok1 && err == nil) ==> st.Appname == (k1 == 0 ? decStrV(src, q0, 0, d0) : old(st.Appname))
+//@   ensures [C04] (ok2 && err == nil) ==> st.Servername == (k2 == 0 ? decStrV(src, q1, 1, d0) : old(st.Servername))
+//@   ensures [C04] (ok3 && err == nil) ==> st.Filename == (k3 == 0 ? decStrV(src, q2, 2, d0) : old(st.Filename))
+//@   ensures [C04] (ok4 && err == nil) ==> st.BAppOnly == (k4 == 0 ? (decIntV(src, q3, 3, d0) != 0) : false)
+//@   ensures [C04] (ok5 && err == nil) ==> st.Host == (k5 == 0 ? decStrV(src, q4, 4, d0) : old(st.Host))
+//@   ensures [C04] (ok6 && err == nil) ==> st.Setdivision == (k6 == 0 ? decStrV(src, q5, 5, d0) : old(st.Setdivision))
+//@   ensures [C04] ok6 ==> (err == nil && readBuf.buf.i == q6)
 //@   safety [C05]
 //
 //@ func (*ConfigInfo).ReadBlock
@@ -51,7 +82,8 @@ package configf
 //
 //@ func (*GetConfigListInfo).ResetDefault
 //@   requires st != nil
-//@   modifies *st
+//@   modifies st.BAppOnly, st.Host, st.Setdivision, st.Containername
+//@   ensures [C04] st.BAppOnly == false && st.Host == "" && st.Setdivision == "" && st.Containername == ""
 //@   safety [C05]
 //
 //@ func (*GetConfigListInfo).ReadFrom
@@ -62,6 +94,36 @@ package configf
 //@   allocates
 //@   ensures [C05] readBuf.buf.i >= p0
 //@   ensures [C05] validR(readBuf)
+//@   let src = readBuf.buf.src
+//@   let d0 = readBuf.depth
+//@   let q0 = readBuf.buf.i
+//@   let k1 = decStrK(src, q0, 0, true, d0)
+//@   let q1 = (k1 == 0 ? decStrP(src, q0, 0, d0) : seekP(src, q0, 0, d0))
+//@   let ok1 = (k1 == 0 || (k1 == 1 && (seekK(src, q0, 0, d0) == 2 || (seekK(src, q0, 0, d0) == 1 && seekCanon(src, q0, 0, d0)))))
+//@   let k2 = decStrK(src, q1, 1, false, d0)
+//@   let q2 = (k2 == 0 ? decStrP(src, q1, 1, d0) : seekP(src, q1, 1, d0))
+//@   let ok2 = ok1 && (k2 == 0 || (k2 == 1 && (seekK(src, q1, 1, d0) == 2 || (seekK(src, q1, 1, d0) == 1 && seekCanon(src, q1, 1, d0)))))
+//@   let k3 = decIntK(src, q2, 2, false, 1, d0)
+//@   let q3 = (k3 == 0 ? decIntP(src, q2, 2, d0) : seekP(src, q2, 2, d0))
+//@   let ok3 = ok2 && (k3 == 0 || (k3 == 1 && (seekK(src, q2, 2, d0) == 2 || (seekK(src, q2, 2, d0) == 1 && seekCanon(src, q2, 2, d0)))))
+//@   let k4 = decStrK(src, q3, 3, false, d0)
+//@   let q4 = (k4 == 0 ? decStrP(src, q3, 3, d0) : seekP(src, q3, 3, d0))
+//@   let ok4 = ok3 && (k4 == 0 || (k4 == 1 && (seekK(src, q3, 3, d0) == 2 || (seekK(src, q3, 3, d0) == 1 && seekCanon(src, q3, 3, d0)))))
+//@   let k5 = decStrK(src, q4, 4, false, d0)
+//@   let q5 = (k5 == 0 ? decStrP(src, q4, 4, d0) : seekP(src, q4, 4, d0))
+//@   let ok5 = ok4 && (k5 == 0 || (k5 == 1 && (seekK(src, q4, 4, d0) == 2 || (seekK(src, q4, 4, d0) == 1 && seekCanon(src, q4, 4, d0)))))
+//@   let k6 = decStrK(src, q5, 5, false, d0)
+//@   let q6 = (k6 == 0 ? decStrP(src, q5, 5, d0) : seekP(src, q5, 5, d0))
+//@   let ok6 = ok5 && (k6 == 0 || (k6 == 1 && (seekK(src, q5, 5, d0) == 2 || (seekK(src, q5, 5, d0) == 1 && seekCanon(src, q5, 5, d0)))))
+//@   opaque [C04] *
+//@   perreturn
+//@   ensures [C04] (ok1 && err == nil) ==> st.Appname == (k1 == 0 ? decStrV(src, q0, 0, d0) : old(st.Appname))
+//@   ensures [C04] (ok2 && err == nil) ==> st.Servername == (k2 == 0 ? decStrV(src, q1, 1, d0) : old(st.Servername))
+//@   ensures [C04] (ok3 && err == nil) ==> st.BAppOnly == (k3 == 0 ? (decIntV(src, q2, 2, d0) != 0) : false)
+//@   ensures [C04] (ok4 && err == nil) ==> st.Host == (k4 == 0 ? decStrV(src, q3, 3, d0) : "")
+//@   ensures [C04] (ok5 && err == nil) ==> st.Setdivision == (k5 == 0 ? decStrV(src, q4, 4, d0) : "")
+//@   ensures [C04] (ok6 && err == nil) ==> st.Containername == (k6 == 0 ? decStrV(src, q5, 5, d0) : "")
+//@   ensures [C04] ok6 ==> (err == nil && readBuf.buf.i == q6)
 //@   safety [C05]
 //
 //@ func (*GetConfigListInfo).ReadBlock
